@@ -22,7 +22,8 @@ import (
 var streamEnumAlphabet = []string{"tick1s", "tick0.4s", "tick-to-zero-time", "tick-past-zero-time", "claim", "topup", "rate-up", "rate-down", "cancel", "create", "tick3s"}
 
 // streamEnumSeq: in the thorough tier the first len(alphabet)^4 enumeration cases are every
-// sequence of length 4 (each preceded by a create); all others are PRNG-drawn with length 5-8.
+// sequence of length 4 (each preceded by a create); in the quick tier the first 2 x len(alphabet)^2
+// are every ordered pair (twice, see below); all others are PRNG-drawn with length 5-8.
 func streamEnumSeq(c *fw.Ctx, idx int) []string {
 	n := len(streamEnumAlphabet)
 	if c.Thorough() && idx < n*n*n*n {
@@ -32,6 +33,16 @@ func streamEnumSeq(c *fw.Ctx, idx int) []string {
 			idx /= n
 		}
 		return seq
+	}
+	if !c.Thorough() && idx < 2*n*n {
+		// quick tier: every ordered PAIR of tokens back to back (two operations in one block, an
+		// operation right after each kind of tick) - once after a PRNG-drawn token, once on a stream
+		// that is two seconds away from running dry (a remainder smaller than most new rates)
+		pre := streamEnumAlphabet[c.Rng.Intn(n)]
+		if idx >= n*n {
+			pre, idx = "tick-near-zero", idx-n*n
+		}
+		return []string{"create", pre, streamEnumAlphabet[idx%n], streamEnumAlphabet[idx/n], "tick1s", "claim"}
 	}
 	l := c.Rng.Range(5, 8)
 	seq := []string{"create"}
@@ -80,6 +91,12 @@ func driveStreamEnum(c *fw.Ctx, e *Env, g *Gen, seq []string, afterBlock func())
 			dt := time.Second
 			if st != nil && st.DepositZeroTime.After(now) && st.DepositZeroTime.Sub(now) < 100*365*24*time.Hour {
 				dt = st.DepositZeroTime.Sub(now)
+			}
+			tick(dt)
+		case "tick-near-zero": // (not in the alphabet: used by the quick tier's pair cases only)
+			dt := time.Second
+			if st != nil && st.DepositZeroTime.Sub(now) > 2*time.Second && st.DepositZeroTime.Sub(now) < 100*365*24*time.Hour {
+				dt = st.DepositZeroTime.Sub(now) - 2*time.Second
 			}
 			tick(dt)
 		case "tick-past-zero-time":
